@@ -98,7 +98,8 @@ Theorem C03_full_refuted : ~ C03_full.
 Proof. exact naive_statement_refuted. Qed.
 Print Assumptions C03_full_refuted.
 
-(* a finished execution recorded exactly the reference documents of the plan *)
+(* a finished execution recorded exactly the reference documents of the plan: the events (as a set), the documents
+   that open and close runs ([rundocs]: RunStart, RunStop, in order; [stops]: the RunStops alone) *)
 Theorem C03_data_equivalence_reference :
   forall (P : Type) (presume : P -> input -> outcome P) (plan_of : nat -> P) (rk : nat) (rdm : msg -> Z) (rv : val) (pid : nat)
          (L : list msg) (SD : list doc),
@@ -108,7 +109,8 @@ Theorem C03_data_equivalence_reference :
       let s0 := fst (step P presume plan_of D dev (init P D d paus stag false) (EvMain (ACall pid))) in
       let r := run P presume plan_of D dev (init P D d paus stag false) (EvMain (ACall pid) :: evs) in
       sched_ok P presume plan_of D dev s0 evs = true -> reads_ok rdm None (snd r) = true -> finished P D (fst r) = true ->
-      (forall x, In x (final_events (snd r)) <-> In x (doc_events SD)) /\ stops (snd r) = doc_stops SD /\ no_raise (snd r) = true.
+      (forall x, In x (final_events (snd r)) <-> In x (doc_events SD)) /\ rundocs (snd r) = doc_rundocs SD /\
+      stops (snd r) = doc_stops SD /\ no_raise (snd r) = true.
 Proof. exact c03_run_matches_reference. Qed.
 Print Assumptions C03_data_equivalence_reference.
 
@@ -129,7 +131,7 @@ Theorem C03_data_equivalence_interruptions :
     reads_ok rdm None (snd r1) = true -> reads_ok rdm None (snd r2) = true ->
     finished P D1 (fst r1) = true -> finished P D2 (fst r2) = true ->
     (forall x, In x (final_events (snd r1)) <-> In x (final_events (snd r2))) /\
-    stops (snd r1) = stops (snd r2) /\ no_raise (snd r1) = true /\ no_raise (snd r2) = true.
+    rundocs (snd r1) = rundocs (snd r2) /\ stops (snd r1) = stops (snd r2) /\ no_raise (snd r1) = true /\ no_raise (snd r2) = true.
 Proof. exact c03_data_equivalence. Qed.
 Print Assumptions C03_data_equivalence_interruptions.
 
